@@ -197,6 +197,16 @@ def index_case(case, ctx):
             ctx.count("index_conversions_compared")
             if got != marker[k]:
                 ctx.violation("explicit-psi-position", f"entry picked for bits({k}) is {got!r}, expected position {k}", tags=tags)
+            # arbitrary bases (rotated sites adjacent or not): entry picked for bits(k) must be position k of U psi
+            for _ in range(3):
+                bb = "".join(rng.choice(list("XYZ"), size=n))
+                Ub = R.basis_unitary(bb)
+                gotb = gen.dec(ctx.lib("rotate_psi_inner_prod(psi=, basis)", unitaries.rotate_psi_inner_prod, st, bb, row,
+                                       unitaries=unitaries.create_dict(), psi=gen.enc(marker), tags=tags)).reshape(-1)[0]
+                ctx.count("index_conversions_compared")
+                if abs(gotb - (Ub @ marker)[k]) > 1e-12 * np.abs(marker).sum():
+                    ctx.violation("explicit-psi-position", f"basis {bb}: amplitude returned for bits({k}) is {gotb!r}, position {k} of "
+                                  f"U psi is {(Ub @ marker)[k]!r}", tags=dict(tags, basis_has_gap=("Z" in bb.strip("Z"))))
             b = "X" + "Z" * (n - 1)
             U = np.kron(R.U_X, np.eye(2 ** (n - 1)))
             r = gen.dec(ctx.lib("rotate_psi(psi=e_k)", unitaries.rotate_psi, st, b, sp, unitaries=unitaries.create_dict(), psi=gen.enc(e), tags=tags))
@@ -222,6 +232,18 @@ def index_case(case, ctx):
             ctx.count("array_positions_checked")
             if abs(f - want) > 1e-6 * (1 + want):
                 ctx.violation("target-position", f"fidelity with |{k}><{k}| is {f!r}, rho_kk/Z = {want!r}", tags=tags)
+            for _ in range(2):
+                bb = "".join(rng.choice(list("XYZ"), size=n))
+                Ub = R.basis_unitary(bb)
+                hm = rng.normal(size=(N, N)) + 1j * rng.normal(size=(N, N))
+                hm = hm @ hm.conj().T
+                row = st.subspace_vector(k).unsqueeze(0)
+                gp = float(ctx.lib("rotate_rho_probs(rho=, basis)", unitaries.rotate_rho_probs, st, bb, row, rho=gen.enc(hm), tags=tags).reshape(-1)[0])
+                wantp = float(np.real((Ub @ hm @ Ub.conj().T)[k, k]))
+                ctx.count("index_conversions_compared")
+                if abs(gp - wantp) > 1e-11 * np.abs(hm).sum():
+                    ctx.violation("explicit-rho-position", f"basis {bb}: probability returned for bits({k}) is {gp!r}, entry ({k},{k}) of "
+                                  f"U rho U^dagger is {wantp!r}", tags=tags)
             b = "X" + "Z" * (n - 1)
             U = np.kron(R.U_X, np.eye(2 ** (n - 1)))
             r = gen.dec(ctx.lib("rotate_rho(rho=)", unitaries.rotate_rho, st, b, sp, rho=gen.enc(e), tags=tags))
